@@ -6,6 +6,7 @@ use std::panic::{catch_unwind, AssertUnwindSafe};
 
 mod dispatch;
 mod purity;
+mod history;
 
 #[derive(Clone, Debug)]
 pub enum Arg {
